@@ -13,6 +13,7 @@ import os, math, copy
 import numpy as np
 from common import *
 from simlib import *
+from simmodel import check_simulates_tables
 from alpha import alpha, geom_of, chan_tokens, syn_tokens
 
 ERRK = {ValueError: "valueerror", KeyError: "keyerror", AssertionError: "assert"}
@@ -296,6 +297,9 @@ def run(args):
                 R.spec_fail(dict(kind="integrate-not-function-of-tables"), "a deep copy of the module simulates differently", desc, None)
             if not np.all(np.isfinite(r1)):
                 R.count("diag:nonfinite-simulation")
+            # "simulates its tables": the Lean model of a whole simulation, driven only by the tables the history left behind
+            # (nodes, edges, recordings, externals, branch structure), must reproduce the recordings
+            check_simulates_tables(R, drv, mod, dict(desc), solver="bwd_euler", backend="jax.sparse")
         except StopIteration:
             pass
         except Exception as ex:
